@@ -500,7 +500,8 @@ def sim(cls: type) -> Sim:
             # Add to the sim-attributes list
             # Special case Python's conventional "ignored" name, the underscore.
             # Leave attributes named "_"'s `name` field set to `None`.
-            if key != "_":
+            # And attributes without a `name` to set, e.g. `Literal`s and `Save`s.
+            if key != "_" and hasattr(val, "name"):
                 val.name = key
             attrs.append(val)
         else:  # Add to the forget-list
